@@ -101,7 +101,7 @@ def gen_explore_cases(tier, g, rnd):
     stmts = [s for s in stmts if s]
     # operator-pair scope (exhaustive depth 2) + random core expressions
     cases += [('fragment', t, 'oppair') for t in G.op_pair_texts()]
-    ncore = 30000 if thorough else 2500
+    ncore = 30000 if thorough else 1500
     for _ in range(ncore):
         cases.append(('fragment', G.core_expr(rnd, rnd.randint(1, 5 if thorough else 4), rnd.choice([0, .2, .5])), 'core'))
     # grammar-driven: every production targeted k times + free derivations
@@ -114,7 +114,7 @@ def gen_explore_cases(tier, g, rnd):
                 if t is not None:
                     cases.append((e, t, 'grammar-target'))
                     break
-    nfree = 40000 if thorough else 1500
+    nfree = 40000 if thorough else 1200
     for _ in range(nfree):
         e = rnd.choice(['block', 'block', 'fragment', 'sdl', 'sdl', 'migration', 'extension'])
         t = S.sample(e, rnd, budget=rnd.choice([8, 15, 30, 60]))
@@ -125,7 +125,7 @@ def gen_explore_cases(tier, g, rnd):
     cases += [('block', s, 'stdlib') for s in libs]
     # mutation / recombination
     pool = [G.core_expr(rnd, 2, 0.3) for _ in range(200)] + [s for s in stmts if len(s) < 200][:300]
-    nmut = 60000 if thorough else 2500
+    nmut = 60000 if thorough else 2000
     base = [(e, t) for e, t, _ in pos] + [('block', s) for s in stmts] + [('block', s) for s in libs[:200]]
     for _ in range(nmut):
         e, t = rnd.choice(base)
@@ -223,8 +223,29 @@ class Finding:
         return e
 
 
+PARTIAL_RESERVED = ('union', 'except', 'intersect')
+RAW_NAME_SITES = (':=', 'reset', 'savepoint', 'alias')
+
+
+def bare_names(text, printed):
+    """(name, preceding word) for every identifier the input had to quote that occurs unquoted in the print"""
+    out = []
+    for m in BACKTICK_RE.finditer(text):
+        name = m.group(1).replace('``', '`')
+        if not must_quote(name):
+            continue
+        for mm in re.finditer(r'(?:(\w+)\s+)?(?<![`\w])' + re.escape(name) + r'(?![`\w])(\s*:=)?', printed):
+            out.append((name, ':=' if mm.group(2) else (mm.group(1) or '').lower()))
+    return out
+
+
+def _sp_partial(case, res, f):
+    return any(n.lower() in PARTIAL_RESERVED for n, _ in bare_names(case[1], f.get('printed') or ''))
+
+
 def _sp_quoted(case, res, f):
-    return quoted_ident_bare(case[1], f.get('printed') or '') is not None
+    return any(n.lower() not in PARTIAL_RESERVED and w in RAW_NAME_SITES
+               for n, w in bare_names(case[1], f.get('printed') or ''))
 
 
 CG = 'edb/edgeql/codegen.py'
@@ -265,13 +286,14 @@ FINDINGS = [
             sig=r'TypeName\.subtypes\[\]/(TypeOp|TypeOf)\.name\|str>None'),
     Finding('C01-alter-empty-body', 'reparse', f'{CG}::_visit_AlterObject',
             'an ALTER command with an empty command block `{ }`', 'printed with no body at all (`alter role x;`), which the grammar rejects',
-            feat='alter-empty', printed=r'\balter\s[^{};]*(;|$)'),
+            feat='alter-empty', special=lambda c, r, f: bool(re.search(r'\balter\s[^{};]*(;|$)', f.get('printed') or '', re.I)
+                                                              or "Missing '{'" in (f.get('sig') or ''))),
     Finding('C01-partial-reserved-bare', 'reparse|same-ast', 'edb/edgeql/quote.py::needs_quoting (only RESERVED_KEYWORD is consulted)',
             'an identifier `union`, `except` or `intersect` (partial reserved keywords) that the input had to quote',
             'printed bare; in expression position the parser reads the keyword',
-            special=lambda c, r, f: (quoted_ident_bare(c[1], f.get('printed') or '') or '').lower() in ('union', 'except', 'intersect')),
-    Finding('C01-quoted-ident-bare', 'reparse|same-ast', f'{CG}::visit_SetField (f"{{node.name}} :="), visit_ConfigReset / session and transaction statements, _visit_DropObject callers that write names raw',
-            'a backtick-quoted identifier of the input occurs unquoted in the printed text',
+            special=_sp_partial),
+    Finding('C01-quoted-ident-bare', 'reparse|same-ast', f'{CG}::visit_SetField (f"{{node.name}} :=" / RESET name), visit_SelectQuery (result_alias), savepoint statements, SET/RESET ALIAS',
+            'an identifier the input had to quote (not union/except/intersect) is printed unquoted as the target of `:=` (SET field / SDL field / SELECT result alias) or directly after RESET, SAVEPOINT or ALIAS',
             'several statement printers write names without ident_to_str: `SET `select` := 1` (quoted) in a DDL body prints `set select := 1`; DECLARE SAVEPOINT with a quoted name prints `declare savepoint my name`',
             special=_sp_quoted),
     Finding('C01-dunder-ident-quoted', 'reparse', 'edb/edgeql/quote.py::quote_ident vs tokenizer.rs (quoted dunder names are forbidden)',
@@ -354,6 +376,10 @@ FINDINGS = [
             'printed without `()`; the SDL production without a parameter list discards the ON expression', sig=r'CreateConstraint\.subjectexpr\|.*>None'),
     Finding('C01-config-insert-empty-shape', 'reparse', f'{CG}::visit_ConfigInsert', 'CONFIGURE ... INSERT T { } (empty shape)',
             'printed `configure SESSION insert T;` with no braces', printed=r'configure\s+[^;]*\binsert\s+(?:`[^`]*`|[^\s;{]+)\s*;'),
+    Finding('C01-sql-function-name-repr', 'reparse', f'{CG}::visit_CreateFunction / visit_CreateOperator / visit_CreateCast (f"{{from_function!r}}")',
+            'USING SQL FUNCTION / OPERATOR name containing a C1 control character (U+0080-009F)',
+            "the name is written with Python's repr(): `using sql function 'c1\\x85'`, an escape the lexer rejects (the visit_Constant repair does not cover these sites)",
+            feat='string-c1', printed=r"using sql\s+(function|operator)\s*'[^']*\\x[89]"),
 ]
 
 
@@ -401,6 +427,7 @@ REPLAYS = {
     'C01-config-insert-empty-shape': ('block', 'CONFIGURE SESSION INSERT Foo { }'),
     'C01-splat-type-expr': ('fragment', 'x { (TYPEOF y).** }'),
     'C01-function-using-sql-expression': ('block', 'CREATE FUNCTION f() -> std::int64 { USING SQL EXPRESSION; }'),
+    'C01-sql-function-name-repr': ('block', "CREATE FUNCTION f() -> std::int64 { USING SQL FUNCTION 'c1\x85'; }"),
 }
 
 
@@ -495,6 +522,617 @@ def triage(argv):
         dump.append({'n': cl[k], 'key': k, 'case': case, 'f': f})
     os.makedirs(SCRATCH, exist_ok=True)
     json.dump(dump, open(os.path.join(SCRATCH, 'triage.json'), 'w'), indent=1)
+
+
+# ----------------------------------------------------------------------------- shrinking
+
+def shrink_text(case, pred, budget=14):
+    """greedy token-chunk deletion while pred((entry, text)) holds; candidates evaluated in batches"""
+    entry, text = case[0], case[1]
+    toks = G.rough_tokens(text)
+    if len(toks) > 400:
+        return entry, text
+    cur = toks
+    rounds = 0
+    n = 2
+    while len(cur) >= 2 and rounds < budget:
+        rounds += 1
+        size = max(1, len(cur) // n)
+        cands = []
+        for i in range(0, len(cur), size):
+            c = cur[:i] + cur[i + size:]
+            if c:
+                cands.append(c)
+        texts = [G.join_tokens(c) for c in cands][:64]
+        oks = pred([(entry, t) for t in texts])
+        hit = next((i for i, ok in enumerate(oks) if ok), None)
+        if hit is not None:
+            cur = cands[hit]
+            n = max(n - 1, 2)
+        elif size == 1:
+            break
+        else:
+            n = min(len(cur), n * 2)
+    return entry, G.join_tokens(cur)
+
+
+def same_failure_pred(f0):
+    key = (f0['kind'], f0.get('sig'))
+
+    def pred(cases):
+        outs = explore([(e, t, 'shrink') for e, t in cases])
+        res = []
+        for (e, t), r in zip(cases, outs):
+            ok = False
+            for f in r.get('fail', []):
+                if f['mode'] == f0['mode'] and (f['kind'], f.get('sig')) == key:
+                    if not any(fd.matches((e, t, 'shrink'), r, f) for fd in FINDINGS):
+                        ok = True
+            res.append(ok)
+        return res
+    return pred
+
+
+# ----------------------------------------------------------------------------- core correspondence
+
+THEOREMS = ['C01_roundtrip', 'C01_idempotent', 'C01_in_context', 'C01_lex_stable']
+REFUTED = ['C01_roundtrip_refuted', 'C01_not_eq_refuted', 'C01_shape_on_prefix_refuted',
+           'C01_detached_postfix_refuted', 'C01_lex_refuted']
+
+
+def gen_core_cases(tier, rnd, nops):
+    thorough = tier == 'thorough'
+    terms = []
+    # exhaustive small scope: every operator at the root with every prefix form / postfix form as either operand
+    leaves = ['R - 0 0', 'C i 0 1', 'C i 1 3']
+    pre = ['U - R - 0 0', 'U + R - 0 0', 'U N R - 0 0', 'U E R - 0 0', 'U D R - 0 0', 'T 0 n - 7 R - 0 0', 'A R - 0 0',
+           'C i 1 3', 'C i 2 3', 'R - 0 1 p 0 1', 'D 1 R - 0 0 0 C i 0 1 _', 'H R - 0 0 1 4 _', 'U - U - R - 0 0',
+           'T 0 n - 7 U - R - 0 0', 'A U N R - 0 0', 'U - A R - 0 0', 'I 0 R - 0 0 n - 7', 'F 1 R - 0 0 R - 1 0 R - 2 0']
+    for o in range(nops):
+        for a in pre + leaves:
+            terms.append(f'B {o} {a} R - 1 0')
+            terms.append(f'B {o} R - 1 0 {a}')
+    for a in pre:
+        for b in pre:
+            if b.split()[0] in 'UTA':
+                # prefix over prefix: replace the innermost operand
+                terms.append(a.replace('R - 0 0', b, 1) if 'R - 0 0' in a else a)
+        terms += [f'H {a} 1 4 _', f'I 0 {a} n - 7', f'I 1 {a} c - 23 1 n - 7', f'F 1 R - 1 0 {a} R - 2 0',
+                  f'F 0 R - 1 0 R - 2 0 {a}', f'F 1 R - 1 0 R - 2 0 {a}', f'A {a}', f'T 1 n - 7 {a}', f'X {a} 1 p 0 4'
+                  if a[0] not in 'RQX' else f'A {a}', f'D 1 {a} 0 C i 0 1 _' if a[0] != 'D' else f'A {a}',
+                  f'S T 1 {a}', f'K - 10 1 {a} 1 20 {a}', f'N 1 5 {a}']
+    n = 40000 if thorough else 2000
+    for _ in range(n):
+        terms.append(G.g_term(rnd, rnd.randint(1, 6 if thorough else 4), nops, image=rnd.random() < 0.9))
+    seen, out = set(), []
+    for t in terms:
+        if t not in seen:
+            seen.add(t)
+            out.append(t)
+    return out
+
+
+def nontrivial_term(t):
+    toks = t.split()
+    nops = sum(1 for x in toks if x in ('B', 'U', 'I', 'F', 'T', 'A', 'D', 'H', 'X'))
+    quoting = any(x in ('13', '14', '15', '16', '17', '22', '28', '29') for x in toks)   # names that need quoting
+    return nops >= 2 or quoting
+
+
+def run_core(rep, tier, exe, man):
+    """model vs real printer / parser on generated trees and texts.  -> dict of results"""
+    rnd = lib.rng('C01core')
+    nops = len(man['operators'])
+    terms = gen_core_cases(tier, rnd, nops)
+    res = {'terms': len(terms)}
+    real = [json.loads(x) for x in run_impl('core', [json.dumps({'k': 'pp', 'x': t}) for t in terms])]
+    mod = lib.run_model(exe, ['pp ' + t for t in terms])
+    dis = []          # model/impl disagreements (broken tie)
+    mon = []          # monitor failures on the real code: wf tree that does not round-trip
+    st = collections.Counter()
+    for t, r, m in zip(terms, real, mod):
+        parts = [x.strip() for x in m.split('|')]
+        if len(parts) != 5:
+            dis.append({'term': t, 'what': 'model driver: ' + m})
+            continue
+        mi, mb, mf, mwf, mlex = parts
+        if r.get('err'):
+            dis.append({'term': t, 'what': 'real printer raised ' + r['err']})
+            continue
+        st['wf' if mwf == '1' else 'not-wf'] += 1
+        st['lex_ok' if mlex == '1' else 'not-lex_ok'] += 1
+        if mf == '1':
+            if r['items'] != mi:
+                dis.append({'term': t, 'what': 'printed tokens / spacing differ', 'text': r['text'], 'real': r['items'], 'model': mi})
+            elif r['back'] != mb:
+                dis.append({'term': t, 'what': 're-parse differs', 'text': r['text'], 'real': r['back'], 'model': mb})
+        else:
+            st['model-says-fuse'] += 1
+            if r['items'] == mi:
+                dis.append({'term': t, 'what': 'model predicts fused tokens, the real lexer reads them apart', 'text': r['text']})
+        if not r.get('pretty_same_tokens') or not r.get('pretty_same_spacing'):
+            mon.append({'term': t, 'what': 'pretty and compact print differ in tokens or in where white space separates tokens',
+                        'text': r.get('text')})
+        if mwf == '1' and mlex == '1':
+            st['wf-and-lex'] += 1
+            if r['back'] != t:
+                mon.append({'term': t, 'what': 'tree satisfying wf does not round-trip on the real code',
+                            'text': r['text'], 'reparsed': r['back']})
+            if r.get('back_pretty') != t:
+                mon.append({'term': t, 'what': 'tree satisfying wf does not round-trip through the pretty printer',
+                            'text': r['text'], 'reparsed': r.get('back_pretty')})
+        elif mb != t and r['back'] == t:
+            st['model-fails-real-ok'] += 1
+    res.update({'disagreements': dis, 'monitor': mon, 'stats': dict(st)})
+    # parser agreement on arbitrary core texts
+    ntext = 30000 if tier == 'thorough' else 2000
+    texts = [G.core_text(rnd, rnd.randint(1, 5 if tier == 'thorough' else 4), rnd.choice([0, .2, .5])) for _ in range(ntext)]
+    texts += G.op_pair_texts()[:0]
+    texts = list(dict.fromkeys(texts))
+    realp = [json.loads(x) for x in run_impl('core', [json.dumps({'k': 'parse', 't': t}) for t in texts])]
+    idx = [i for i, r in enumerate(realp) if not r['items'].startswith('LEXERR') and '?' not in r['items']]
+    modp = lib.run_model(exe, ['parse ' + ' '.join(x for x in realp[i]['items'].split() if x != '_') for i in idx])
+    pst = collections.Counter()
+    pdis = []
+    sym = man['symbols']
+    y_not, y_like, y_ilike = f'y{sym["NOT"]}', f'y{sym["LIKE"]}', f'y{sym["ILIKE"]}'
+    y_open = {f'y{sym[k]}' for k in ('LPAREN', 'LBRACKET', 'LBRACE')}
+    y_close = {f'y{sym[k]}' for k in ('RPAREN', 'RBRACKET', 'RBRACE')}
+
+    def not_like_chain(items):
+        """`x NOT [I]LIKE y` followed at the same nesting depth by LIKE / ILIKE / NOT: the only inputs on which the
+        substrate's LR table may differ from upstream's (harness/rt/STATUS.md: 6 cells)"""
+        toks = [x for x in items.split() if x != '_']
+        for i in range(len(toks) - 1):
+            if toks[i] == y_not and toks[i + 1] in (y_like, y_ilike):
+                d = 0
+                for t in toks[i + 2:]:
+                    if t in y_open:
+                        d += 1
+                    elif t in y_close:
+                        d -= 1
+                        if d < 0:
+                            break
+                    elif d == 0 and t in (y_not, y_like, y_ilike):
+                        return True
+        return False
+    for i, m in zip(idx, modp):
+        r = realp[i]
+        if r['back'].startswith('UNSUPPORTED'):
+            pst['outside-core'] += 1
+            continue
+        if not_like_chain(r['items']):
+            pst['excluded-not-like-chain'] += 1
+            continue
+        pst['accepted' if r['back'] != 'FAIL' else 'rejected'] += 1
+        if r['back'] != m:
+            pdis.append({'text': texts[i], 'real': r['back'], 'model': m})
+    res.update({'texts': len(texts), 'texts_compared': pst['accepted'] + pst['rejected'], 'parse_stats': dict(pst),
+                'parse_disagreements': pdis})
+    # lexical adjacency table vs the real lexer
+    reps = {}
+    for name, sid in man['symbols'].items():
+        reps[f'y{sid}'] = man['symbol_text'][name]
+    reps.update({'i0': 'x', 'i13': '`my name`', 'ni1': '1', 'nf0': '1.5', 'nf2': '1e10', 'nn0': '1n', 'nd0': '1.5n',
+                 's0': "'abc'", 's1': '"abc"', 's2': "r'abc'", 's3': '$$abc$$', 'b0': "b'ab'", 'p0': '$x', 'p1': '$0'})
+    keys = sorted(reps)
+    pairs = [(a, b) for a in keys for b in keys]
+    fz = lib.run_model(exe, [f'fuse {a} {b}' for a, b in pairs])
+    lx = [json.loads(x) for x in run_impl('lexpairs', [json.dumps({'a': reps[a], 'b': reps[b]}) for a, b in pairs])]
+    unsound, conservative = [], 0
+    for (a, b), f, l in zip(pairs, fz, lx):
+        if f == '0' and not l['ok']:
+            unsound.append({'a': reps[a], 'b': reps[b]})
+        if f == '1' and l['ok']:
+            conservative += 1
+    res.update({'lex_pairs': len(pairs), 'lex_unsound': unsound, 'lex_conservative': conservative})
+    res['samples'] = [terms[i] for i in (0, len(terms) // 2, len(terms) - 1)]
+    res['distinct_nontrivial'] = len({t for t in terms if nontrivial_term(t)})
+    res['exe_terms'] = terms
+    res['model_lines'] = mod
+    return res
+
+
+def coq_term(t):
+    """prefix notation -> Coq term of Model.expr"""
+    toks = t.split()
+    pos = [0]
+
+    def nxt():
+        v = toks[pos[0]]
+        pos[0] += 1
+        return v
+
+    def on(v):
+        return 'None' if v == '-' else f'(Some {v}%N)'
+
+    def typ():
+        k = nxt()
+        m, n = nxt(), nxt()
+        if k == 'n':
+            return f'(TyName {on(m)} {n}%N)'
+        cnt = int(nxt())
+        return f'(TyColl {on(m)} {n}%N [{"; ".join(typ() for _ in range(cnt))}])'
+
+    def step():
+        k = nxt()
+        if k == 'p':
+            bw = nxt()
+            return f'(SPtr {"true" if bw == "1" else "false"} {nxt()}%N)'
+        if k == 'a':
+            return f'(SAt {nxt()}%N)'
+        return f'(SIs {typ()})'
+
+    def opt():
+        if toks[pos[0]] == '_':
+            pos[0] += 1
+            return 'None'
+        return f'(Some {ex()})'
+
+    def nat(n):
+        return str(n)
+
+    def ex():
+        k = nxt()
+        if k == 'C':
+            kind, nneg, v = nxt(), nxt(), nxt()
+            ck = {'s': 'CStr', 'b': 'CBytes', 't': 'CBool', 'i': '(CNum KInt)', 'f': '(CNum KFloat)',
+                  'n': '(CNum KBigInt)', 'd': '(CNum KDecimal)'}[kind]
+            return f'(EConst {ck} {nat(nneg)} {v}%N)'
+        if k == 'P':
+            return f'(EParam {nxt()}%N)'
+        if k == 'R':
+            m, n, cnt = nxt(), nxt(), int(nxt())
+            return f'(EPathRef {on(m)} {n}%N [{"; ".join(step() for _ in range(cnt))}])'
+        if k == 'Q':
+            cnt = int(nxt())
+            return f'(EPathPartial [{"; ".join(step() for _ in range(cnt))}])'
+        if k == 'X':
+            e = ex()
+            cnt = int(nxt())
+            return f'(EPathExpr {e} [{"; ".join(step() for _ in range(cnt))}])'
+        if k == 'U':
+            o = {'+': 'UPlus', '-': 'UMinus', 'N': 'UNot', 'E': 'UExists', 'D': 'UDistinct'}[nxt()]
+            return f'(EUn {o} {ex()})'
+        if k == 'B':
+            o = nxt()
+            l = ex()
+            return f'(EBin {o}%N {l} {ex()})'
+        if k == 'I':
+            neg = nxt()
+            l = ex()
+            return f'(EIs {"true" if neg == "1" else "false"} {l} {typ()})'
+        if k == 'F':
+            py = nxt()
+            c, a, b = ex(), ex(), ex()
+            return f'(EIf {"true" if py == "1" else "false"} {c} {a} {b})'
+        if k == 'S':
+            kind, cnt = nxt(), int(nxt())
+            return f'(ESeq {dict(T="QTuple", A="QArray", S="QSet")[kind]} [{"; ".join(ex() for _ in range(cnt))}])'
+        if k == 'N':
+            cnt = int(nxt())
+            fs = []
+            for _ in range(cnt):
+                n = nxt()
+                fs.append(f'({n}%N, {ex()})')
+            return f'(ENamedTuple [{"; ".join(fs)}])'
+        if k == 'K':
+            m, f, ka = nxt(), nxt(), int(nxt())
+            args = [ex() for _ in range(ka)]
+            kk = int(nxt())
+            kw = []
+            for _ in range(kk):
+                n = nxt()
+                kw.append(f'({n}%N, {ex()})')
+            return f'(ECall {on(m)} {f}%N [{"; ".join(args)}] [{"; ".join(kw)}])'
+        if k == 'T':
+            o = nxt()
+            t_ = typ()
+            return f'(ECast {"true" if o == "1" else "false"} {t_} {ex()})'
+        if k == 'D':
+            cnt = int(nxt())
+            e = ex()
+            ixs = []
+            for _ in range(cnt):
+                sl = nxt()
+                a, b = opt(), opt()
+                ixs.append(f'({"true" if sl == "1" else "false"}, {a}, {b})')
+            return f'(EIndir {e} [{"; ".join(ixs)}])'
+        if k == 'A':
+            return f'(EDetached {ex()})'
+        if k == 'G':
+            m = nxt()
+            return f'(EGlobal {on(m)} {nxt()}%N)'
+        if k == 'H':
+            e = ex()
+            cnt = int(nxt())
+            els = []
+            for _ in range(cnt):
+                n = nxt()
+                els.append(f'({n}%N, {opt()})')
+            return f'(EShape {e} [{"; ".join(els)}])'
+        raise ValueError(k)
+    return ex()
+
+
+# ----------------------------------------------------------------------------- run
+
+def run(tier):
+    rep = lib.Report(PROP, tier, 'proof')
+    thorough = tier == 'thorough'
+    t_start = time.time()
+    sys.path.insert(0, os.path.join(lib.VERIF, 'harness', 'translate'))
+    import c01_grammar
+    tr_ok, tr_msg, man = c01_grammar.regenerate(lib.REPO, lib.COQ)
+    pf = {'ok': False, 'broken': ['translator failed closed: ' + tr_msg], 'log': ''}
+    exe, blog = None, ''
+    if tr_ok:
+        pf = lib.proof_stage(rep, 'C01', THEOREMS, extra_targets=['theories/C01/Refuted.vo'], thorough=thorough)
+        exe, blog = lib.build_model('c01', 'ExtractC01.v', 'c01_main.ml', 'C01_ext')
+    else:
+        rep.coverage.update({'obligations': len(THEOREMS), 'discharged': 0,
+                             'checker_cmd': 'harness/translate/c01_grammar.py failed closed: ' + tr_msg})
+    listed = {e['id'] for e in lib.known_findings(PROP)}
+
+    phases = {'proof+build': round(time.time() - t_start, 1)}
+    # ---- core correspondence (model vs real code)
+    core = None
+    t_ph = time.time()
+    if exe and man:
+        core = run_core(rep, tier, exe, man)
+    phases['core'] = round(time.time() - t_ph, 1)
+    t_ph = time.time()
+
+    # ---- Coq-internal evaluation of a sample (guards extraction)
+    coq_diff, n_coq = [], 0
+    if core is not None:
+        rnd = lib.rng('C01coq')
+        terms = core['exe_terms']
+        idx = sorted(rnd.sample(range(len(terms)), min(400 if thorough else 120, len(terms))))
+        idx = [i for i in idx if len(terms[i]) < 600]
+        exprs = []
+        for i in idx:
+            ct = coq_term(terms[i])
+            exprs.append(f'(wf {ct}, lex_ok {ct}, no_fuse (pp_items {ct}), match parse (pp {ct}) with Some e => if wf e then 1 else 2 | None => 0 end)%nat')
+        try:
+            outs = lib.coq_eval('C01', 'From Coq Require Import List NArith Bool. Import ListNotations.\n'
+                                       'From Verif.C01 Require Import Gen_Grammar Model.', exprs, timeout=900)
+            n_coq = len(outs)
+            for i, o in zip(idx, outs):
+                parts = [x.strip() for x in core['model_lines'][i].split('|')]
+                mb, mf, mwf, mlex = parts[1], parts[2], parts[3], parts[4]
+                flags = re.findall(r'true|false', o)
+                num = re.findall(r'\b([012])\b', o.split(',')[-1])
+                ok = (len(flags) >= 3 and flags[0] == ('true' if mwf == '1' else 'false')
+                      and flags[1] == ('true' if mlex == '1' else 'false')
+                      and flags[2] == ('true' if mf == '1' else 'false')
+                      and bool(num) and ((num[0] == '0') == (mb == 'FAIL')))
+                if not ok:
+                    coq_diff.append({'term': terms[i], 'coq': o, 'extracted': core['model_lines'][i][-200:]})
+        except RuntimeError as e:
+            coq_diff.append({'error': str(e)[-1500:]})
+
+    phases['coq_eval'] = round(time.time() - t_ph, 1)
+    t_ph = time.time()
+    # ---- exploration on the real code
+    g = load_grammar()
+    rnd = lib.rng('C01explore')
+    cases = gen_explore_cases(tier, g, rnd)
+    replay_cases = [(REPLAYS[k][0], REPLAYS[k][1], 'finding-replay:' + k) for k in REPLAYS]
+    cases = replay_cases + cases
+    outs = explore(cases)
+
+    phases['exploration'] = round(time.time() - t_ph, 1)
+    t_ph = time.time()
+    acc = sum(o.get('acc', 0) for o in outs)
+    prods = set()
+    pairs = set()
+    nodes = set()
+    for o in outs:
+        prods |= set(o.get('prods', []))
+        pairs |= set(o.get('pairs', []))
+        nodes |= set(o.get('nodes', []))
+    byorig, accorig = collections.Counter(), collections.Counter()
+    entry_acc = collections.Counter()
+    depth_hist = collections.Counter()
+    rej_kinds = collections.Counter()
+    crashes = []
+    for (e, t, o), r in zip(cases, outs):
+        oo = o.split(':')[0]
+        byorig[oo] += 1
+        accorig[oo] += r.get('acc', 0)
+        if r.get('acc'):
+            entry_acc[e] += 1
+            depth_hist[min(r.get('depth', 0) // 5 * 5, 40)] += 1
+        elif r.get('crash'):
+            crashes.append({'entry': e, 'text': t[:300], 'error': r['crash']})
+        else:
+            rej_kinds[re.sub(r"'[^']*'", "'..'", r.get('rej', ''))[:40]] += 1
+    known = collections.Counter()
+    info = collections.Counter()
+    unrec = []
+    mode_checks = collections.Counter()
+    for case, r in zip(cases, outs):
+        if r.get('acc'):
+            for mname in ('pretty', 'compact', 'upper', 'upper-compact'):
+                mode_checks[mname] += 1
+        for f in r.get('fail', []):
+            if f['mode'].startswith('info:'):
+                info[f['mode'] + ' ' + f['kind']] += 1
+                continue
+            fd = None
+            for cand in FINDINGS:
+                if cand.matches(case, r, f):
+                    fd = cand
+                    break
+            if fd is not None and fd.id in listed:
+                known[fd.id] += 1
+            else:
+                unrec.append((case, r, f, fd))
+    not_reproduced = []
+    for (e, t, o), r in zip(replay_cases, outs[:len(replay_cases)]):
+        fid = o.split(':', 1)[1]
+        hit = any((not f['mode'].startswith('info:')) and any(fd.id == fid and fd.matches((e, t, o), r, f) for fd in FINDINGS)
+                  for f in r.get('fail', []))
+        if not hit and fid in listed:
+            not_reproduced.append(fid)
+
+    # ---- verdict
+    for fid, n in sorted(known.items()):
+        fd = next(x for x in FINDINGS if x.id == fid)
+        rep.known_finding(fid, f'{fd.what} [{n} failing (case, mode) pairs this run]')
+    clusters = {}
+    for case, r, f, fd in unrec:
+        k = ((fd.id if fd else None), f['kind'], f.get('sig') if fd is None else '')
+        if k not in clusters or len(case[1]) < len(clusters[k][0][1]):
+            clusters[k] = (case, r, f, fd)
+    for k, (case, r, f, fd) in sorted(clusters.items(), key=lambda kv: len(kv[1][0][1]))[:5]:
+        small = (case[0], case[1])
+        if fd is None:
+            try:
+                small = shrink_text(case, same_failure_pred(f))
+            except Exception:
+                small = (case[0], case[1])
+        r2 = explore([(small[0], small[1], 'shrunk')])[0]
+        f2 = next((x for x in r2.get('fail', []) if x['kind'] == f['kind'] and x['mode'] == f['mode']), f)
+        what = {'reparse': 'the printed text is rejected by the parser',
+                'same-ast': 'the printed text parses to a different program',
+                'idem': 'printing the re-parsed program gives different text',
+                'print-error': 'the printer raises on a program the parser accepted',
+                'mode-tokens': 'printer modes disagree beyond white space / keyword case'}[f['kind']]
+        if fd is not None:
+            what += f' (matches finding {fd.id}, which is not listed in known_findings.json)'
+        rep.violation(f'{what}: entry={small[0]} mode={f["mode"]}',
+                      {'case': enc_case(small[0], small[1]), 'original_case': enc_case(case[0], case[1]),
+                       'mode': f['mode'], 'monitor': f['kind'], 'printed': f2.get('printed'), 'detail': f2.get('detail'),
+                       'signature': f.get('sig'), 'origin': case[2],
+                       'how': f'PYTHONPATH={lib.REPO}:harness /venv/bin/python harness/impl/c01_impl.py {lib.REPO} explore <<< case'})
+    if core is not None:
+        for m in core['monitor'][:2]:
+            rep.violation('core monitor on the real code: ' + m['what'], {'case': json.dumps({'k': 'pp', 'x': m['term']}), **m})
+        for u in core['lex_unsound'][:2]:
+            rep.violation('lexical adjacency table of the model is unsound for the real lexer (model: tokens may touch; '
+                          'lexer: they fuse)', {'broken': 'Model.fuses vs tokenizer.rs', **u}, False)
+    broken = []
+    if not rep.violations:
+        if not tr_ok:
+            broken.append('translator failed closed: ' + tr_msg)
+        elif exe is None:
+            broken.append('model does not build: ' + blog[-800:])
+        else:
+            if core['disagreements']:
+                d = min(core['disagreements'], key=lambda x: len(x['term']))
+                rep.violation(f'correspondence broken: model and real printer/parser disagree on {len(core["disagreements"])} of '
+                              f'{core["terms"]} trees; no monitor failed', {'broken': 'Model.pp_items / Model.parse vs codegen.py / parser',
+                                                                             'case': json.dumps({'k': 'pp', 'x': d['term']}), **d}, False)
+            if core['parse_disagreements']:
+                d = min(core['parse_disagreements'], key=lambda x: len(x['text']))
+                rep.violation(f'correspondence broken: model parser and real parser disagree on {len(core["parse_disagreements"])} of '
+                              f'{core["texts_compared"]} core texts', {'broken': 'Model.parse vs the LR tables of the grammar',
+                                                                       'case': json.dumps({'k': 'parse', 't': d['text']}), **d}, False)
+            if coq_diff:
+                rep.violation('extracted model disagrees with vm_compute inside Coq', {'broken': 'extraction', **coq_diff[0]}, False)
+            if not pf['ok']:
+                broken += pf['broken']
+        if broken:
+            rep.violation('proof obligations / translator no longer check: ' + '; '.join(broken[:6]),
+                          {'broken': broken, 'log_tail': pf.get('log', '')[-3000:]}, False)
+    if not_reproduced:
+        rep.notes.append('known findings whose replay no longer fails (repaired?): ' + ', '.join(sorted(not_reproduced)))
+
+    # ---- evidence
+    accepted_hashes = {o['h'] for o in outs if o.get('acc')}
+    nontriv = {o['h'] for (e, t, _), o in zip(cases, outs)
+               if o.get('acc') and (o.get('nops', 0) >= 2 or '`' in t)}
+    rep.coverage.update({
+        'evaluations': len(cases) + (core['terms'] + core['texts'] + core['lex_pairs'] if core else 0),
+        'distinct_nontrivial': len(nontriv) + (core['distinct_nontrivial'] if core else 0),
+        'rule': 'exploration: upstream syntax corpora, operator-pair scope (every outer x inner operator x position, bare and '
+                'parenthesised), random core expressions, production-targeted and free derivations from the repo grammar, '
+                'standard-library statements, token-level mutation/recombination, migration/extension bodies, malformed stream; '
+                'non-trivial = accepted text whose tree has >= 2 operator nodes or that contains a quoted identifier; distinct = '
+                'distinct canonical tree.  core: trees of the Coq model (exhaustive operator x prefix/postfix scope + random); '
+                'non-trivial = >= 2 operator nodes or a name that needs quoting; distinct = distinct term',
+        'exhaustive': False,
+        'exhaustive_subspaces': ['operator-pair texts: every (outer, inner, position) of binary/IS/IF-ELSE/prefix/postfix forms, bare and parenthesised',
+                                 'core trees: every binary operator with every prefix/postfix form as left and as right operand'],
+        'samples': [{'entry': cases[i][0], 'text': cases[i][1][:300], 'origin': cases[i][2]}
+                    for i in (len(replay_cases), len(cases) // 3, len(cases) // 2, len(cases) - 1)]
+                   + ([{'core_term': x} for x in core['samples']] if core else []),
+        'traces_validated_against_impl': (core['terms'] + core['texts_compared']) if core else 0,
+        'model_vs_impl_disagreements': (len(core['disagreements']) + len(core['parse_disagreements'])) if core else None,
+        'coq_vm_compute_cross_checked': n_coq,
+        'core': {k: v for k, v in (core or {}).items() if k in ('terms', 'texts', 'texts_compared', 'stats', 'parse_stats',
+                                                                 'lex_pairs', 'lex_conservative')},
+        'core_lex_unsound_pairs': len(core['lex_unsound']) if core else None,
+        'exploration': {
+            'label': 'exploration (real code only; not proof)',
+            'texts': len(cases), 'accepted': acc, 'accepted_by_entry': dict(entry_acc),
+            'generated_by_origin': dict(byorig), 'accepted_by_origin': dict(accorig),
+            'productions_reached': len(prods), 'productions_total': len(g['production_names']),
+            'operator_pairs_reached': len(pairs), 'ast_node_classes_reached': len(nodes),
+            'tree_depth_histogram': {str(k): v for k, v in sorted(depth_hist.items())},
+            'rejection_kinds_top': dict(rej_kinds.most_common(8)),
+            'printer_mode_checks': dict(mode_checks),
+            'known_finding_hits': dict(known),
+            'informational_descmode_failures': dict(info),
+            'parser_crashes': crashes[:5], 'parser_crash_count': len(crashes),
+            'unrecognised_failure_clusters': len(clusters),
+            'normalisations': 'N1 {USING e} == := e; N2 empty shape == subject; N3 ONTO initial == no parent; N4 kind lists are sets; '
+                              'N5 SDL body order (sorted printer); N6 rewrite name derived from kinds (see harness/impl/c01_impl.py)',
+            'excluded': 'nothing is excluded from the exploration: every text is judged by what the substrate parser accepts, and the '
+                        'printer parenthesises every binary operator, so a printed text never contains an unparenthesised '
+                        '`a NOT LIKE b LIKE c` chain (the only inputs on which the substrate LR table may differ from upstream, 6 cells); '
+                        'in the model-parser agreement such chains are excluded from alarms and counted '
+                        '(core.parse_stats.excluded-not-like-chain)',
+        },
+        'gen_manifest': man and {k: man[k] for k in ('sources', 'operators', 'levels')},
+        'refutation_theorems': REFUTED,
+        'trusted_base': [
+            'Coq 8.16.1 kernel (coqc; coqchk in the thorough tier); vm_compute only for witnesses / examples / table facts',
+            'extraction: ExtrOcamlBasic only; OCaml 4.13.1; ocaml/conv.ml + c01_main.ml (cross-checked by vm_compute on a sample)',
+            'translator harness/translate/c01_grammar.py (fail-closed; precedence classes, token texts, operator productions)',
+            'correspondence harness harness/props/c01.py + c01_gen.py + harness/impl/c01_impl.py (generators, term <-> qlast '
+            'conversion, canonical AST comparison with the documented normalisations N1-N6, finding predicates)',
+            'runtime substrate harness/rt (real Rust lexer; own LR(1) tables for the repo grammar; real reduce_* methods)',
+            'modelled, not verified: the LR engine (substitute), spelling of identifiers / literals (C18), the printer outside '
+            'the expression core (covered by exploration only)',
+        ],
+    })
+    rep.assumptions = [
+        'leaves (identifier / literal / parameter spellings) are abstract in the model; their quoting is C18',
+        'Model.fuses over-approximates token fusion; swept against the real lexer on every pair of representatives',
+        'the statement layer (SELECT/INSERT/..., DDL, SDL, migrations, config, describe) is exploration on the real code, not proof',
+    ]
+    phases['verdict+shrink'] = round(time.time() - t_ph, 1)
+    rep.coverage['phase_seconds'] = phases
+    return rep.finish()
+
+
+def replay(path):
+    d = json.load(open(path))
+    case = d['replay'].get('case') or d['replay'].get('original_case')
+    c = json.loads(case)
+    if 'e' in c:
+        print('case :', case)
+        r = json.loads(run_impl('explore', [case])[0])
+        print('accepted:', r.get('acc'), r.get('rej') or r.get('crash') or '')
+        print('printed (compact):', r.get('out'))
+        for f in r.get('fail', []):
+            print(' ', f['mode'], f['kind'], f.get('sig'), '|', (f.get('detail') or '')[:300])
+            if f.get('printed'):
+                print('      printed:', f['printed'][:300].replace('\n', '\\n'))
+        return 0
+    exe, _ = lib.build_model('c01', 'ExtractC01.v', 'c01_main.ml', 'C01_ext')
+    r = json.loads(run_impl('core', [case])[0])
+    print('case :', case)
+    print('impl :', r)
+    if exe:
+        if c['k'] == 'pp':
+            print('model:', lib.run_model(exe, ['pp ' + c['x']])[0])
+        else:
+            print('model:', lib.run_model(exe, ['parse ' + ' '.join(x for x in r['items'].split() if x != '_')])[0])
+    return 0
 
 
 if __name__ == '__main__':
